@@ -620,6 +620,11 @@ impl<T: Qcow2IoOps> Qcow2Dev<T> {
                 }
                 let _ = l2_table.map_cluster(split.l2_slice_index(info), l2_off);
 
+                // mark it now, because zeroing one preallocation above may
+                // fail and return with earlier mappings made already
+                l2_handle.set_dirty(true);
+                self.mark_need_flush(true);
+
                 //load new entry
                 let entry = l2_table.get_entry(info, &split);
                 l2_entries.push(entry);
